@@ -25,7 +25,8 @@ def check_obligation(ex, ob, timeout_ms=10000):
         return ("refuted" if r == z3.unsat else "proved", dt, f"requires not contradictory ({r})")
     t0 = time.time()
     last = None
-    for fast in (True, False):
+    stages = (True,) if z3.is_false(goal) else (True, False)  # goal `False` = "this path must be infeasible": the quick stage decides
+    for fast in stages:
         s = _solver(2000 if fast else timeout_ms, fast)
         s.add(*ax)
         s.add(*pc)
